@@ -18,7 +18,7 @@ import unittest
 import struct
 
 # Site-Packages
-from numpy import zeros, array, newaxis
+from numpy import zeros, array
 
 # This Package modules
 from PseudoNetCDF.camxfiles.timetuple import timediff, timerange
@@ -106,24 +106,20 @@ class uamiv(PseudoNetCDFFile):
     def __var_get(self, key):
         units = get_uamiv_units(self.name, key, self._aerosol_names)
         spcnames = [sn.strip() for sn in self.spcnames]
-        if self.name == 'EMISSIONS ':
-            def constr(spc):
-                return self.getArray(
-                    nspec=spcnames.index(spc)).squeeze()[:, newaxis, :, :]
+        ntimes = len(self.dimensions['TSTEP'])
+        nlays = len(self.dimensions['LAY'])
+        nrows = len(self.dimensions['ROW'])
+        ncols = len(self.dimensions['COL'])
 
+        def constr(spc):
+            return self.getArray(nspec=spcnames.index(
+                spc)).reshape(ntimes, nlays, nrows, ncols)
+
+        if self.name == 'EMISSIONS ':
             def decor(spc):
                 return dict(units=units, var_desc=spc,
                             long_name=spc.ljust(16))
         else:
-            ntimes = len(self.dimensions['TSTEP'])
-            nlays = len(self.dimensions['LAY'])
-            nrows = len(self.dimensions['ROW'])
-            ncols = len(self.dimensions['COL'])
-
-            def constr(spc):
-                return self.getArray(nspec=spcnames.index(
-                    spc)).squeeze().reshape(ntimes, nlays, nrows, ncols)
-
             def decor(spc):
                 return dict(units=units, var_desc=spc.ljust(16),
                             long_name=spc.ljust(16))
